@@ -259,6 +259,30 @@ def shard_op2d_big(arg):
     return res
 
 
+def shard_huge(arg):
+    """meshes whose cell/face counts straddle the 2^15 and 2^16 limits of narrow index types: three fixed patterns each (the operator is evaluated
+    once per pattern; conservation is judged as on the small meshes)"""
+    res = core.Res()
+    if arg[0] == "1d":
+        _, mname, flux, rname, n, bcs = arg
+        spec, kind = MODELS[mname]
+        for k in range(3):
+            idx = space.huge_idx(n, k, 3)
+            res.evals += 1
+            res.nontrivial += 1
+            for s, w in check_op_1d(mname, flux, rname, ("uni", n, 10.0, -0.3), bcs, idx, "mild", res):
+                res.violation(s.replace("C01/op1d/", "C01/op1d/very-large-mesh/"), w[:600], {"kind": "huge", "arg": list(arg), "pattern": k})
+    else:
+        _, flux, rname, grid, bcname = arg
+        for k in range(3):
+            idx = space.huge_idx(grid[0] * grid[1], k, 3)
+            res.evals += 1
+            res.nontrivial += 1
+            for s, w in check_op_2d(flux, rname, grid, bcname, idx, res):
+                res.violation(s.replace("C01/op2d/", "C01/op2d/very-large-grid/"), w[:600], {"kind": "huge", "arg": list(arg), "pattern": k})
+    return res
+
+
 # ---------------------------------------------------------------------------
 # solve level: BFS over step transitions
 def integrals(f, vol):
@@ -479,6 +503,11 @@ def run(ctx):
     big = [(flux, rname, grid, bcname) for flux in space.fluxes(space.euler.euler2d()) for rname in (space.X2_ALL if th else space.X2_ALL[:3])
            for grid in ((5, 4, 2.0, 0.75), (7, 2, 1.0, 1.0), (2, 7, 1.0, 3.0), (4, 4, 1.0, 1.0)) for bcname in BC2D]
     ctx.pmap("operator-2d-size-ladder", shard_op2d_big, big)
+    huge = [("2d", fl, r, g, b) for fl in ("centered", "hlle") for r in ("extrapol2d1", "extrapol2dk:0.3333333333333333")
+            for g in ((128, 129, 2.0, 0.75), (182, 181, 1.0, 1.0)) for b in ("per", "sym")]
+    huge += [("1d", mn, fl, r, n, bcs) for mn, fl in (("euler1d", "hllc"), ("convection+", None)) for r in ("extrapol1", "muscl:vanleer")
+             for n in (32769, 65537) for bcs in (("per", "per"),)]
+    ctx.pmap("operator-index-width-limits", shard_huge, huge)
     cfg3 = []
     for iname in space.integrators():
         for mname, flux, rname in (("convection-", None, "extrapol3"), ("burgers", None, "muscl:vanleer"), ("euler1d", "hllc", "muscl:minmod"),
@@ -506,6 +535,14 @@ def replay(case):
     if k == "op2d":
         v = check_op_2d(case["flux"], case["recon"], tuple(case["grid"]), case["bc"], tuple(case["idx"]))
         return [(s_.replace("C01/op2d/", "C01/op2d/larger-grid/") if case["grid"][0] * case["grid"][1] > 9 else s_, w) for s_, w in v]
+    if k == "huge":
+        a = case["arg"]
+        if a[0] == "1d":
+            v = check_op_1d(a[1], a[2], a[3], ("uni", a[4], 10.0, -0.3), tuple(a[5]), space.huge_idx(a[4], case["pattern"], 3), "mild")
+            return [(s_.replace("C01/op1d/", "C01/op1d/very-large-mesh/"), w[:600]) for s_, w in v]
+        g = tuple(a[3])
+        v = check_op_2d(a[1], a[2], g, a[4], space.huge_idx(g[0] * g[1], case["pattern"], 3))
+        return [(s_.replace("C01/op2d/", "C01/op2d/very-large-grid/"), w[:600]) for s_, w in v]
     if k == "afterdtl":
         return check_after_dtlocal(case["integrator"], case["model"], case["flux"], case["recon"], ("w", (0.5, 2.0, 1.0)), "per", tuple(case["idx"]))
     if k == "solve":
